@@ -6,6 +6,7 @@ import FuraxModel.Codec
 import FuraxModel.Reduce
 import FuraxModel.Stokes
 import FuraxModel.Toeplitz
+import FuraxModel.Axes
 namespace Furax
 open SExp
 
@@ -85,10 +86,35 @@ def handleToeplitz (cmd : String) (args : List SExp) : Option SExp :=
     | .ok (some v) => some (list [atom "ok", ofNat v])
   | _, _ => none
 
+def replyErr (e : PyErr) : SExp := list [atom "error", atom e.name]
+
+/-- `(moveaxis (shape) (src) (dst) (data))`, `(ravel-ctor first last (ranks))`, `(ravel-shape first last (shape))`,
+`(reshape-check (target) (leafshape))` -/
+def handleAxes (cmd : String) (args : List SExp) : Option SExp :=
+  match cmd, args with
+  | "moveaxis", [sh, src, dst, d] => do
+    let t : Tensor Rat := ⟨← sh.nats?, ← d.rats?⟩
+    match Axes.moveaxis t (← src.ints?) (← dst.ints?) with
+    | .ok r => some (list [atom "ok", ofNats r.shape, ofRats r.data])
+    | .error e => some (replyErr e)
+  | "ravel-ctor", [f, l, ranks] => do
+    match Axes.ravelCtor (← f.int?) (← l.int?) (← ranks.nats?) with
+    | .ok _ => some (list [atom "ok"])
+    | .error e => some (replyErr e)
+  | "ravel-shape", [f, l, sh] => do
+    match Axes.ravelShape (← f.int?) (← l.int?) (← sh.nats?) with
+    | .ok r => some (list [atom "ok", ofNats r])
+    | .error e => some (replyErr e)
+  | "reshape-check", [target, leaf] => do
+    match Axes.reshapeCheck (← target.ints?) (← leaf.nats?) with
+    | .ok r => some (list [atom "ok", ofNats r])
+    | .error e => some (replyErr e)
+  | _, _ => none
+
 def handle (line : String) : String :=
   match SExp.parse line with
   | some (list (atom cmd :: args)) =>
-    match ((handleLevelA cmd args).orElse (fun _ => handleStokes cmd args)).orElse (fun _ => handleToeplitz cmd args) with
+    match ((handleLevelA cmd args).orElse (fun _ => handleStokes cmd args)).orElse (fun _ => handleToeplitz cmd args) |>.orElse (fun _ => handleAxes cmd args) with
     | some r => r.toStr
     | none => "(bad-request)"
   | _ => "(bad-request)"
